@@ -541,6 +541,10 @@ func (e *evalEnv) index(x *ast.IndexExpr) tv {
 	b := e.value(base)
 	switch t := b.typ.Underlying().(type) {
 	case *types.Slice:
+		if suf := fmt.Sprintf(" (soff %s))", b.term); slots(t.Elem()) == 1 && strings.HasPrefix(idx.term, "(- ") && strings.HasSuffix(idx.term, suf) {
+			// absolute-index form introduced by quant(): off + (j - off) = j
+			return e.fromAddr(t.Elem(), fmt.Sprintf("(sref %s)", b.term), idx.term[3:len(idx.term)-len(suf)])
+		}
 		return e.fromAddr(t.Elem(), fmt.Sprintf("(sref %s)", b.term), fmt.Sprintf("(+ (soff %s) %s)", b.term, mulConst(slots(t.Elem()), idx.term)))
 	case *types.Basic:
 		if isString(t) {
@@ -701,6 +705,14 @@ func (e *evalEnv) call(x *ast.CallExpr) tv {
 				e.fail(x, "fresh() of a value without reference: %s", v.typ)
 			}
 			return tv{term: fmt.Sprintf("(or (= %s 0) (>= %s %s))", r, r, e.entryNext), typ: tBool}
+		case "exact":
+			// exact(p): p points to a whole object of exactly its static element type (not into a larger object)
+			v := e.value(e.eval(x.Args[0]))
+			pt, ok := v.typ.Underlying().(*types.Pointer)
+			if !ok {
+				e.fail(x, "exact() needs a pointer")
+			}
+			return tv{term: fmt.Sprintf("(and (= (poff %s) 0) (= (rtype (pref %s)) %d))", v.term, v.term, e.g.allocTag(objAlloc(pt.Elem()))), typ: tBool}
 		case "allocated":
 			v := e.value(e.eval(x.Args[0]))
 			r, ok := refOf(v)
@@ -758,6 +770,9 @@ func (e *evalEnv) call(x *ast.CallExpr) tv {
 				return tv{term: fmt.Sprintf("(qpush %s %s)", l.term, r.term), typ: tSSeq, spec: true}
 			}
 			e.fail(x, "append() only on spec sequences in contracts")
+		case "zeros", "specZeros":
+			v := e.value(e.eval(x.Args[0]))
+			return tv{term: fmt.Sprintf("(szeros %s)", v.term), typ: tString}
 		case "specByte":
 			v := e.value(e.eval(x.Args[0]))
 			return tv{term: fmt.Sprintf("(sunit (mod %s 256))", v.term), typ: tString}
@@ -908,6 +923,38 @@ func (e *evalEnv) quant(q string, x *ast.CallExpr) tv {
 			}
 		}
 	}
+	// Triggers of the form s[i] (s a slice in memory, i a variable of this quantifier) are re-expressed over the
+	// absolute slot index j = off(s)+i, so that the pattern is (select row j) without arithmetic inside it.
+	for _, t := range x.Args[1:] {
+		pc, ok := t.(*ast.CallExpr)
+		if !ok {
+			continue
+		}
+		for _, pa := range pc.Args {
+			ie, ok := pa.(*ast.IndexExpr)
+			if !ok {
+				continue
+			}
+			id, ok := ie.Index.(*ast.Ident)
+			if !ok {
+				continue
+			}
+			bv, isBound := c.bound[id.Name]
+			if !isBound || !strings.HasPrefix(bv.term, "q_") || mentionsIdent(ie.X, id.Name) {
+				continue
+			}
+			sv, okS := c.tryEvalSlice(ie.X)
+			if !okS {
+				continue
+			}
+			st, isSl := sv.typ.Underlying().(*types.Slice)
+			if !isSl || sv.spec || slots(st.Elem()) != 1 {
+				continue
+			}
+			// bv.term is the SMT bound variable: from now on it denotes the absolute index j; i = j - off(s)
+			c.bound[id.Name] = tv{term: fmt.Sprintf("(- %s (soff %s))", bv.term, sv.term), typ: bv.typ}
+		}
+	}
 	ret := fl.Body.List[0].(*ast.ReturnStmt)
 	body := c.evalBool(ret.Results[0])
 	var groups []string
@@ -936,6 +983,31 @@ func (e *evalEnv) quant(q string, x *ast.CallExpr) tv {
 		body = fmt.Sprintf("(! %s%s)", body, strings.Join(groups, ""))
 	}
 	return tv{term: fmt.Sprintf("(%s (%s) %s)", q, strings.Join(decls, " "), body), typ: tBool}
+}
+
+func mentionsIdent(x ast.Expr, name string) bool {
+	found := false
+	ast.Inspect(x, func(n ast.Node) bool {
+		if id, ok := n.(*ast.Ident); ok && id.Name == name {
+			found = true
+		}
+		return !found
+	})
+	return found
+}
+
+func (e *evalEnv) tryEvalSlice(x ast.Expr) (v tv, ok bool) {
+	defer func() {
+		if r := recover(); r != nil {
+			if _, isCE := r.(contractError); isCE {
+				ok = false
+				return
+			}
+			panic(r)
+		}
+	}()
+	v = e.value(e.eval(x))
+	return v, v.typ != nil
 }
 
 // splitConj splits a top-level conjunction of an expression into its conjuncts (so that failures name one conjunct)
@@ -1046,6 +1118,15 @@ func (a *Act) fnNames(phiEnv map[ssa.Value]string, results []string, st *State) 
 		}
 		return tv{}, false
 	}
+}
+
+func findMacro(name string) *Macro {
+	for _, m := range macros {
+		if m.Name == name {
+			return m
+		}
+	}
+	return nil
 }
 
 func isErrorType(t types.Type) bool { return t.String() == "error" }
